@@ -4,6 +4,7 @@ package registry
 import (
 	"verif/sim/clisim"
 	"verif/sim/execsim"
+	"verif/sim/schemasim"
 	"verif/sim/simkit"
 )
 
@@ -145,5 +146,45 @@ func init() {
 		Stub:           []string{"none (independent observer)"},
 		Assumptions:    []string{"'untouched' is compared on the logical content (sqlite_master text + every row); byte identity of the file is reported as a probe", "a crash inside migrate lint is not simulated (its replay loop has no instrumented point); statement failures inside lint are"},
 		SimTimeUnit:    "CLI invocations",
+	})
+	walkRule := "one run = random walk of 3-8 desired SQLite schemas (each obtained from the previous one by 1-3 elementary edits kept only if SQLite itself accepts the result; occasionally a fresh schema) over <=4 tables drawn from the feature catalogue (sized/user types, NULL/NOT NULL, literal and expression defaults, single/composite/AUTOINCREMENT primary keys, unique/multi-column/DESC/partial/expression indexes, named and unnamed CHECKs, self/cross foreign keys with every action, WITHOUT ROWID, STRICT, VIRTUAL/STORED generated columns), rows inserted between steps, each step = inspect -> diff (normalized) -> plan -> ApplyChanges in a transaction (file) or directly (none), with the k-th statement failing or the connection abandoned after the k-th statement in fault-injecting runs; distinct = distinct trace hash among runs that applied at least one plan"
+	walkReal := []string{"sqlite driver: inspect, diff, plan, ApplyChanges, OpenTx/commit checks", "sqlx differ/planner helpers", "sqlite.MarshalHCL / EvalHCLBytes, sqltool formatters (where the property uses them)", "real SQLite engine (mattn/go-sqlite3) on a per-run file"}
+	walkStub := []string{"faultEQ: wrapper of the connection the plan is executed on (k-th statement fails / connection abandoned after k)", "row generator and reference DDL generator are the simulator's own"}
+	walkAssume := []string{"SQLite only (no MySQL/PostgreSQL engine offline)", "desired schemas stay inside the feature set Atlas documents for SQLite; every desired schema is first created on a scratch engine by the simulator's own DDL", "a plan that fails only because of the data (shown by succeeding once all rows are removed) is expected to fail and roll back"}
+	add(&simkit.Check{
+		Property:       "C01",
+		Parts:          []simkit.Part{{Name: "schemasim-c01", Fn: schemasim.Walk("C01"), Runs: map[string]int{"quick": 3000, "thorough": 120000}}},
+		Rule:           walkRule,
+		RequiredProbes: []string{"successful-apply", "rebuild-path", "alter-path", "converged-check/alter", "converged-check/rebuild", "failed-apply-rolled-back", "failed-apply-left-intermediate-state"},
+		RequiredFaults: []string{"statement-error", "connection-abandoned"},
+		Real:           walkReal, Stub: walkStub, Assumptions: walkAssume,
+		SimTimeUnit: "reconciliation steps",
+	})
+	add(&simkit.Check{
+		Property: "C05",
+		Parts:    []simkit.Part{{Name: "schemasim-c05", Fn: schemasim.Walk("C05"), Runs: map[string]int{"quick": 3000, "thorough": 120000}}},
+		Rule:     walkRule + "; oracle: row count and the multiset of rows projected on the columns that keep name and declared type, per table, across every successful apply; whole-database identity across every failed apply in a transaction",
+		RequiredProbes: []string{"successful-apply", "populated-table-checked/alter", "populated-table-checked/rebuild", "failed-apply-rolled-back", "row-inserted"},
+		RequiredFaults: []string{"statement-error", "connection-abandoned"},
+		Real:           walkReal, Stub: walkStub, Assumptions: append([]string{"a nullable column that becomes NOT NULL cannot keep its NULLs: such a column is compared only if it held none", "rows are matched as multisets (every generated cell value is unique), not by rowid"}, walkAssume...),
+		SimTimeUnit: "reconciliation steps",
+	})
+	add(&simkit.Check{
+		Property: "C03",
+		Parts:    []simkit.Part{{Name: "schemasim-c03", Fn: schemasim.Walk("C03"), Runs: map[string]int{"quick": 2500, "thorough": 100000}}},
+		Rule:     walkRule + "; oracle on every state a successful apply reached: HCL export evaluates back to the inspected schema (both directions), two inspections give identical HCL, the SQL export (plan empty -> inspected, dump mode) executes on a fresh engine and recreates the same schema and the same observer catalog",
+		RequiredProbes: []string{"successful-apply", "export-check/alter", "export-check/rebuild", "failed-apply-left-intermediate-state"},
+		RequiredFaults: []string{"statement-error", "connection-abandoned"},
+		Real:           walkReal, Stub: walkStub, Assumptions: walkAssume,
+		SimTimeUnit: "reconciliation steps",
+	})
+	add(&simkit.Check{
+		Property: "C17",
+		Parts:    []simkit.Part{{Name: "schemasim-c17", Fn: schemasim.Walk("C17"), Runs: map[string]int{"quick": 3000, "thorough": 120000}}},
+		Rule:     walkRule + "; oracle on every successfully applied plan: flagged reversible only if every change has reverse statements; for reversible plans the down sections of the golang-migrate, goose, dbmate, flyway formatters and the liquibase rollback lines are exactly the reverse statements in reverse order, and executing them on the real database restores the starting schema and catalog",
+		RequiredProbes: []string{"successful-apply", "reversible-plan", "irreversible-plan", "down-executed"},
+		RequiredFaults: []string{"statement-error"},
+		Real:           walkReal, Stub: walkStub, Assumptions: append([]string{"SQLite part only: MySQL/PostgreSQL reversibility is not claimed (no engine offline)"}, walkAssume...),
+		SimTimeUnit: "reconciliation steps",
 	})
 }
